@@ -1,6 +1,53 @@
 use crate::parser::{self, CommandCall, ParseError};
 use crate::{tree, CommandId, Error, Value};
 
+/// The response buffer of [Interface::process].
+///
+/// A response counts once it has been completed by a flush. What a unit left
+/// behind when its response did not fit into the buffer is dropped again, so
+/// that nothing but complete responses is handed to the adapter.
+struct ResponseBuffer<const N: usize> {
+    buffer: heapless::Vec<u8, N>,
+    complete: usize,
+}
+
+impl<const N: usize> ResponseBuffer<N> {
+    /// Drops the beginning of a response whose rest did not fit.
+    fn rollback_on_error(&mut self, result: Result<(), Error>) -> Result<(), Error> {
+        if result.is_err() {
+            self.buffer.truncate(self.complete);
+        }
+        result
+    }
+}
+
+impl<const N: usize> crate::Write for ResponseBuffer<N> {
+    async fn write_bytes(&mut self, bytes: &[u8]) -> Result<(), Error> {
+        let result = self.buffer.write_bytes(bytes).await;
+        self.rollback_on_error(result)
+    }
+
+    async fn write_char(&mut self, c: char) -> Result<(), Error> {
+        let result = self.buffer.write_char(c).await;
+        self.rollback_on_error(result)
+    }
+
+    async fn write_str(&mut self, str: &str) -> Result<(), Error> {
+        let result = self.buffer.write_str(str).await;
+        self.rollback_on_error(result)
+    }
+
+    async fn write_fmt(&mut self, fmt: core::fmt::Arguments<'_>) -> Result<(), Error> {
+        let result = crate::Write::write_fmt(&mut self.buffer, fmt).await;
+        self.rollback_on_error(result)
+    }
+
+    async fn flush(&mut self) -> Result<(), Error> {
+        self.complete = self.buffer.len();
+        Ok(())
+    }
+}
+
 pub trait ErrorHandler {
     fn handle_error(&mut self, _error: Error);
 }
@@ -137,7 +184,7 @@ pub trait Interface: ErrorHandler {
 
     async fn process<const N: usize, A: Adapter>(&mut self, adapter: &mut A) -> Result<(), A::Error> {
         let mut cmd_buf = [0u8; N];
-        let mut res_buf: heapless::Vec<u8, N> = heapless::Vec::new();
+        let mut res_buf: ResponseBuffer<N> = ResponseBuffer { buffer: heapless::Vec::new(), complete: 0 };
     
         let mut proc_offset = 0;
         let mut read_offset = 0;
@@ -160,10 +207,14 @@ pub trait Interface: ErrorHandler {
     
                 let remaining = self.run_from(&mut header, data, &mut res_buf).await;
 
-                if !res_buf.is_empty() {
-                    adapter.write(&res_buf).await?;
+                // Drop whatever a failed unit left behind the last complete response.
+                res_buf.buffer.truncate(res_buf.complete);
+
+                if !res_buf.buffer.is_empty() {
+                    adapter.write(&res_buf.buffer).await?;
                     adapter.flush().await?;
-                    res_buf.clear();
+                    res_buf.buffer.clear();
+                    res_buf.complete = 0;
                 }
     
                 // Update the offset to the position up to where the data has been processed.
